@@ -23,15 +23,19 @@ M.uninterpreted('stops_at', [NODE, INT], BOOL)
 M.uninterpreted('breaks_at', [NODE, INT], BOOL)
 M.uninterpreted('continues_at', [NODE, INT], BOOL)
 WHY = 'structural induction: the evaluation of a child node is abstract'
+# a child may declare variables: the record of installations of every symbol table only grows
+KEEPS = ('all(len(t.installed) >= len(old(t.installed)) and seq_take(t.installed, len(old(t.installed))) == old(t.installed) '
+         'for t in anyref("SymbolTable"))')
 M.contract('bridgepoint.interpret.ActionWalker.accept', [('self', W), ('node', NODE)], returns=ACC, trusted=True, reason=WHY,
            ensures={'nothing-for-a-missing-child': 'implies(node is None, result is None and self.trace == old(self.trace))',
+                    'symbols-are-only-added': KEEPS,
                     'recorded': 'implies(node is not None, self.trace == old(self.trace) + [node] and result is not None '
                                 'and same(result.fgetv, evalv(node, len(old(self.trace)))))'},
            raises=[Raises('ReturnException', when='node is not None and returns_at(node, len(self.trace))',
-                          post={'recorded': 'self.trace == old(self.trace) + [node]'}),
+                          post={'recorded': 'self.trace == old(self.trace) + [node]', 'symbols-are-only-added': KEEPS}),
                    Raises('StopException', when='node is not None and not returns_at(node, len(self.trace)) and stops_at(node, len(self.trace))',
-                          post={'recorded': 'self.trace == old(self.trace) + [node]'})],
-           modifies=['self.trace', 'Acc.fgetv', 'Acc.truth'], ghost={'allocates': True})
+                          post={'recorded': 'self.trace == old(self.trace) + [node]', 'symbols-are-only-added': KEEPS})],
+           modifies=['self.trace', 'Acc.fgetv', 'Acc.truth', 'SymbolTable.installed'], ghost={'allocates': True})
 M.contract('builtins.Acc.fget', [('self', ACC)], returns=VAL, trusted=True, reason='getter of the returned property object',
            ensures={'value': 'same(result, self.fgetv)'}, modifies=[])
 M.contract('bridgepoint.interpret.SymbolTable.enter_scope', [('self', SYM)], returns=NONE, trusted=True, reason='scope depth abstraction',
@@ -58,19 +62,19 @@ M.contract('bridgepoint.interpret.ActionWalker.accept_BodyNode', [('self', W), (
            ensures={'own-scope-entered-and-left': 'self.symtab.depth == old(self.symtab.depth)',
                     'return-and-stop-end-the-body-quietly': 'self.trace == old(self.trace) + [node.block]',
                     'self-bound-to-the-receiving-instance':
-                    'implies(self.instance is not None, len(self.symtab.installed) == len(old(self.symtab.installed)) + 1 '
+                    'implies(self.instance is not None, len(self.symtab.installed) >= len(old(self.symtab.installed)) + 1 '
                     'and self.symtab.installed[len(old(self.symtab.installed))][0] == "self" '
                     'and self.symtab.installed[len(old(self.symtab.installed))][2] == old(self.symtab.depth) + 1) '
-                    'and implies(self.instance is None, self.symtab.installed == old(self.symtab.installed))'},
+                    'and seq_take(self.symtab.installed, len(old(self.symtab.installed))) == old(self.symtab.installed)'},
            modifies=['self.trace', 'self.symtab.depth', 'self.symtab.installed', 'Acc.fgetv', 'Acc.truth'])
 
 # ---- control flow inside a body: blocks, statement lists, break / continue / stop, while
 M.fields({'SymbolTable.blocks': INT, 'Node.statement_list': NODE, 'Node.children': SeqT(NODE), 'Node.expression': NODE, 'Node.block': NODE})
 ct = M.contracts['bridgepoint.interpret.ActionWalker.accept']
 other = 'node is not None and not returns_at(node, len(self.trace)) and not stops_at(node, len(self.trace))'
-ct.raises += [Raises('BreakException', when=other + ' and breaks_at(node, len(self.trace))', post={'recorded': 'self.trace == old(self.trace) + [node]'}),
+ct.raises += [Raises('BreakException', when=other + ' and breaks_at(node, len(self.trace))', post={'recorded': 'self.trace == old(self.trace) + [node]', 'symbols-are-only-added': KEEPS}),
               Raises('ContinueException', when=other + ' and not breaks_at(node, len(self.trace)) and continues_at(node, len(self.trace))',
-                     post={'recorded': 'self.trace == old(self.trace) + [node]'})]
+                     post={'recorded': 'self.trace == old(self.trace) + [node]', 'symbols-are-only-added': KEEPS})]
 M.contract('bridgepoint.interpret.SymbolTable.enter_block', [('self', SYM)], returns=NONE, trusted=True, reason='block depth abstraction',
            ensures={'deeper': 'self.blocks == old(self.blocks) + 1'}, modifies=['self.blocks'])
 M.contract('bridgepoint.interpret.SymbolTable.leave_block', [('self', SYM)], returns=NONE, trusted=True, reason='block depth abstraction',
@@ -108,3 +112,14 @@ M.contract('bridgepoint.interpret.ActionWalker.accept_WhileNode', [('self', W), 
            modifies=['self.trace', 'Acc.fgetv', 'Acc.truth'],
            loops={0: Loop(inv={'history-kept': 'len(self.trace) >= n and seq_take(self.trace, n) == old(self.trace)',
                                'whole-rounds-so-far': '(len(self.trace) - n) % 2 == 0 and rounds(self.trace, n, len(self.trace), node.expression, node.block)'})})
+
+# every handler that evaluates children may, through them, install symbols; it re-establishes "only added" for its own node
+for _h in ('accept_ReturnNode', 'accept_BodyNode', 'accept_BlockNode', 'accept_StatementListNode', 'accept_WhileNode'):
+    _c = M.contracts['bridgepoint.interpret.ActionWalker.' + _h]
+    _c.modifies = [m for m in _c.modifies if m != 'self.symtab.installed'] + ['SymbolTable.installed']
+    _c.ensures.setdefault('symbols-are-only-added', KEEPS)
+    for _r in _c.raises:
+        if 'unchanged' not in _r.post:
+            _r.post.setdefault('symbols-are-only-added', KEEPS)
+    for _l in _c.loops.values():
+        _l.inv['symbols-are-only-added'] = KEEPS
